@@ -17,7 +17,7 @@ import (
 // Operations are drawn in two levels (category, then operation) from short
 // lists: rapid's integer draws favour small values, and one long weighted list
 // starves its tail.
-var categories = []string{"sort", "grow", "view", "append", "map", "sort", "bytes", "alias", "view", "map", "other", "grow", "call", "create", "append", "map", "bytes", "call"}
+var categories = []string{"sort", "grow", "view", "append", "map", "sort", "bytes", "alias", "view", "map", "other", "grow", "call", "create", "append", "map", "bytes", "call", "call", "map"}
 
 var catOps = map[string][]string{
 	"sort":   {"stable-sort"},
@@ -90,6 +90,9 @@ func genStepOp(t *rapid.T, first bool, op string) Step {
 	s.T = rapid.SampledFrom([]int{1, 0, 1, 0, 1, 0, 1, 2, 0, 3}).Draw(t, "t")
 	if cat == "bytes" && rapid.IntRange(0, 5).Draw(t, "bt") > 0 {
 		s.T = rapid.SampledFrom([]int{2, 2, 2, 3}).Draw(t, "btt")
+	}
+	if (s.Op == "concat" || s.Op == "slice") && rapid.IntRange(0, 5).Draw(t, "strq") == 0 {
+		s.T = 3 // a 'string result
 	}
 	s.I = rapid.IntRange(0, 7).Draw(t, "i")
 	s.J = rapid.IntRange(0, 7).Draw(t, "j")
@@ -169,13 +172,44 @@ func genDerive(t *rapid.T) []Step {
 	if len(m.Args) == 0 {
 		m.Args = []Arg{{K: 0, I: 7}}
 	}
+	builds := d.Op == "zip" || (d.Op == "map" && d.Fn%3 == 2) // the operation makes its own element containers
+	if builds && rapid.Bool().Draw(t, "mbuilt") {
+		// each tuple / wrapped element is a fresh value of its own: growing or
+		// sorting one must not touch its neighbours
+		m.Via = rapid.IntRange(1, 63).Draw(t, "mvia")
+		if d.Op == "zip" && d.T == 1 {
+			m.Op = "append!"
+		}
+	} else if rapid.IntRange(0, 3).Draw(t, "melem") == 0 {
+		// ... or change an ELEMENT of the derived value in place: a zip tuple,
+		// a list made by the mapped function, or one of the source's own
+		// elements, which the derived value must share
+		m.Via = rapid.IntRange(1, 63).Draw(t, "mvia")
+	}
+	var pre []Step
+	if rapid.IntRange(0, 3).Draw(t, "tiny") == 0 && d.Op != "keys" && d.Op != "to-bytes" && d.Op != "append-bytes" {
+		// derive from a 0- or 1-element list / vector of the result's own type
+		// (or the other one): where "nothing to do" shortcuts that hand back
+		// the argument itself would live
+		src := scenarioStep(t, rapid.SampledFrom([]string{"list", "vector"}).Draw(t, "tinyop"))
+		if len(src.Args) > 1 {
+			src.Args = src.Args[:rapid.IntRange(0, 1).Draw(t, "tinyn")]
+		}
+		src.Dst = (d.Dst + 1 + rapid.IntRange(0, 7).Draw(t, "tinydst")) % NSlots
+		if rapid.IntRange(0, 2).Draw(t, "tinysame") > 0 {
+			d.T = map[string]int{"list": 0, "vector": 1}[src.Op]
+		}
+		aim(&d, src.Dst)
+		d.B = src.Dst
+		pre = []Step{src}
+	}
 	r := d
 	r.Again = true
 	r.Dst = rapid.IntRange(0, 9).Draw(t, "rdst")
 	if r.Dst == d.Dst {
 		r.Dst = (r.Dst + 1) % NSlots
 	}
-	return []Step{d, m, r}
+	return append(pre, d, m, r)
 }
 
 // scenarioStep draws a well-typed step of the given operation for use inside
@@ -184,6 +218,21 @@ func scenarioStep(t *rapid.T, op string) Step {
 	s := genStepOp(t, false, op)
 	s.Loose, s.Bad, s.Via, s.Pref = false, 0, 0, 0
 	return s
+}
+
+// maybeBad gives a scenario step an injected error now and then (bad byte at
+// any position, unhashable key, index / bound out of range): a refused
+// operation must change nothing, whatever it was aimed at.
+func maybeBad(t *rapid.T, s *Step) {
+	switch rapid.IntRange(0, 11).Draw(t, "sbadq") {
+	case 0, 1:
+		s.Bad = rapid.IntRange(1, 5).Draw(t, "sbad")
+		if s.T == 2 && rapid.Bool().Draw(t, "sbadbyte") {
+			s.Bad = 5
+		}
+	case 2:
+		s.Loose = true // an operand of any type
+	}
 }
 
 // aim makes the principal operand of s the value held by slot a.
@@ -287,6 +336,27 @@ func genCapacity(t *rapid.T) []Step {
 		out = append(out, s)
 	default: // whatever slot S holds already
 	}
+	if !bytesSrc && rapid.IntRange(0, 2).Draw(t, "capderive") == 0 {
+		// ... or a value DERIVED from that source (the 0- and 1-element
+		// special cases of reverse, map, select, concat, slice ... start here);
+		// the first source stays live
+		d := scenarioStep(t, rapid.SampledFrom([]string{"reverse", "concat", "map", "select", "reject", "append", "slice", "rest", "insert-index", "zip", "cdr", "alias"}).Draw(t, "capdop"))
+		d.T = rapid.IntRange(0, 1).Draw(t, "capdt")
+		if d.Op == "append" || d.Op == "concat" {
+			d.Args, d.J = nil, 0
+		}
+		if d.Op == "slice" {
+			d.I, d.J = 0, 7
+		}
+		if d.Op == "alias" {
+			d.Fn = 0
+		}
+		aim(&d, S)
+		d.B = S
+		S = (Y + 1 + rapid.IntRange(0, 1).Draw(t, "caps2")) % NSlots
+		d.Dst = S
+		out = append(out, d)
+	}
 	ops := extendSeqOps
 	if bytesSrc {
 		ops = extendByteOps
@@ -313,6 +383,7 @@ func genCapacity(t *rapid.T) []Step {
 		if op == "insert-index" && rapid.Bool().Draw(t, "atend") {
 			e.I = -1 // resolved to the length: insertion at the end
 		}
+		maybeBad(t, &e)
 		out = append(out, e)
 	}
 	for i := 0; i < 2; i++ {
@@ -331,6 +402,7 @@ func genCapacity(t *rapid.T) []Step {
 		}
 		m.Dst = -1
 		atLeastOneArg(t, &m)
+		maybeBad(t, &m)
 		out = append(out, m)
 	}
 	return out
@@ -429,6 +501,7 @@ func genNested(t *rapid.T) []Step {
 		default:
 			m.Via = rapid.IntRange(1, 63).Draw(t, "mvia")
 		}
+		maybeBad(t, &m)
 		return m
 	}
 	out = append(out, mutate(first))
@@ -444,8 +517,95 @@ func genNested(t *rapid.T) []Step {
 	return out
 }
 
+// genViews emits a view V of some live sequence (slice into a list or a
+// vector, rest, cdr), usually a view W of that view, and then one to three
+// operations aimed at V, W or any value that shares storage with another one:
+// an in-place sort (must show through the source and the sibling views), an
+// append! (a view must detach), a non-mutating append / insert (must write
+// nowhere), or a further view.
+func genViews(t *rapid.T) []Step {
+	sl := distinctSlots(t, 3)
+	V, W, X := sl[0], sl[1], sl[2]
+	viewOps := []string{"slice", "slice", "rest", "cdr", "slice"}
+	v := scenarioStep(t, rapid.SampledFrom(viewOps).Draw(t, "v1"))
+	v.T = rapid.IntRange(0, 1).Draw(t, "v1t")
+	v.Pref = rapid.IntRange(0, 3).Draw(t, "v1p")
+	v.Dst = V
+	out := []Step{v}
+	targets := []int{V}
+	if rapid.IntRange(0, 3).Draw(t, "v2q") > 0 {
+		w := scenarioStep(t, rapid.SampledFrom(viewOps).Draw(t, "v2"))
+		w.T = rapid.IntRange(0, 1).Draw(t, "v2t")
+		aim(&w, V)
+		w.Dst = W
+		out = append(out, w)
+		targets = append(targets, W, W)
+	}
+	n := rapid.IntRange(1, 3).Draw(t, "vn")
+	for i := 0; i < n; i++ {
+		m := scenarioStep(t, rapid.SampledFrom([]string{"stable-sort", "stable-sort", "append!", "append", "stable-sort", "insert-index", "append!"}).Draw(t, "vm"))
+		m.T = 1
+		atLeastOneArg(t, &m)
+		if rapid.IntRange(0, 3).Draw(t, "vshared") == 0 {
+			m.Pref = 3 // any value whose storage another live value shares (often the source)
+		} else {
+			aim(&m, rapid.SampledFrom(targets).Draw(t, "vtarget"))
+		}
+		if mutatingOps[m.Op] {
+			m.Dst = -1
+		} else {
+			m.Dst = X
+		}
+		maybeBad(t, &m)
+		out = append(out, m)
+	}
+	return out
+}
+
+// genMapChurn works ONE map with a run of operations on one or two key NAMES
+// under changing spellings: write as symbol, delete, write again as string,
+// look up, copy with assoc / dissoc (present and absent keys), change the copy
+// in place -- "behaves as a finite map under any sequence of operations" needs
+// the same key to be hit several times, which independent draws from fourteen
+// spellings rarely do.
+func genMapChurn(t *rapid.T) []Step {
+	sl := distinctSlots(t, 2)
+	M, C := sl[0], sl[1]
+	var out []Step
+	if rapid.IntRange(0, 3).Draw(t, "churnnew") > 0 {
+		m := scenarioStep(t, "sorted-map")
+		m.Dst = M
+		out = append(out, m)
+	}
+	k1 := rapid.IntRange(0, 6).Draw(t, "churnk1")
+	k2 := rapid.IntRange(0, 6).Draw(t, "churnk2")
+	n := rapid.IntRange(3, 6).Draw(t, "churnn")
+	for i := 0; i < n; i++ {
+		op := rapid.SampledFrom([]string{"assoc!", "dissoc!", "assoc!", "dissoc!", "assoc", "dissoc", "get", "keys"}).Draw(t, "churnop")
+		st := scenarioStep(t, op)
+		k := k1
+		if rapid.IntRange(0, 3).Draw(t, "churnk") == 0 {
+			k = k2
+		}
+		st.Keys = []KeySpec{{N: k, Sym: rapid.Bool().Draw(t, "churnsym")}}
+		target := M
+		if rapid.IntRange(0, 3).Draw(t, "churnc") == 0 {
+			target = C // the copy made by an earlier assoc / dissoc
+		}
+		aim(&st, target)
+		if mutatingOps[op] {
+			st.Dst = -1
+		} else {
+			st.Dst = C
+		}
+		maybeBad(t, &st)
+		out = append(out, st)
+	}
+	return out
+}
+
 func genCase() *rapid.Generator[Case] {
-	maxSteps := 25
+	maxSteps := 32
 	if os.Getenv("VERIF_TIER") == "thorough" {
 		maxSteps = 40
 	}
@@ -455,7 +615,7 @@ func genCase() *rapid.Generator[Case] {
 		for len(c.Steps) < n {
 			i := len(c.Steps)
 			if i >= 2 {
-				switch rapid.IntRange(0, 9).Draw(t, "scenario") {
+				switch rapid.IntRange(0, 11).Draw(t, "scenario") {
 				case 0:
 					c.Steps = append(c.Steps, genDerive(t)...)
 					continue
@@ -464,6 +624,12 @@ func genCase() *rapid.Generator[Case] {
 					continue
 				case 2:
 					c.Steps = append(c.Steps, genNested(t)...)
+					continue
+				case 3:
+					c.Steps = append(c.Steps, genViews(t)...)
+					continue
+				case 4:
+					c.Steps = append(c.Steps, genMapChurn(t)...)
 					continue
 				}
 			}
